@@ -533,6 +533,14 @@ Definition resolve_v4 (cx : ctx4) (pf : profile4) : resolved4 :=
                 | Some p => concat (map (fun o => match snd o with Some d => [(fst o, d)] | None => [] end) (pl_opts p))
                 | None => [] end |}.
 
+(* the allocation branch of ResolveV4 (ctx.IPv4Address == nil): WHICH free address the allocator registry hands out is not
+   constrained by this property (C01 owns it); the model takes the implementation's choice and only requires it to be
+   admissible: it lies in a configured pool of the profile.  ResolveV4 then continues exactly as with a given address. *)
+Definition alloc_admissible (addr : bytes) (pf : profile4) : bool :=
+  match find_pool addr (pf_pools pf) with Some _ => true | None => false end.
+Definition has_usable_pool (pf : profile4) : bool :=
+  existsb (fun p => match pl_net p with Some _ => true | None => false end) (pf_pools pf).
+
 (* ResolveV4 followed by the local server's buildResponseFromResolved: configuration + AAA context -> frame on the wire *)
 Definition resolve_and_reply (v : variant) (ovf : bool) (pad : nat) (xid : N) (ciaddr : option bytes) (hw : bytes) (msgtype : N)
            (cx : ctx4) (pf : profile4) : result (option bytes) :=
